@@ -36,6 +36,9 @@ type Case struct {
 	RepID   string       `json:"rep"`
 	N       int64        `json:"n"`
 	Chunked bool         `json:"chunked"`
+	// ChunkKind (with Chunked): "" = ato 3/4 + chunkdur 1/4 of the segment | "no-ato" = chunkdur_0.5 alone (one chunk covers the
+	// segment) | "tiny-ato" = ato_0.01 + chunkdur_0.5 (one chunk covers the shorter of the re-segmented audio segments)
+	ChunkKind string `json:"chunk_kind,omitempty"`
 	Regime  string       `json:"regime"`
 }
 
@@ -100,6 +103,7 @@ func genCase(t *rapid.T) (Case, *env.Env) {
 	}
 	if uniform && segMS >= 1000 && rapid.IntRange(0, 3).Draw(t, "chunked?") == 0 {
 		c.Chunked = true
+		c.ChunkKind = rapid.SampledFrom([]string{"", "", "", "", "", "no-ato", "tiny-ato"}).Draw(t, "chunk-kind")
 	}
 	return c, e
 }
@@ -189,7 +193,14 @@ func checkCase(c Case, e *env.Env) (*hx.Violation, info) {
 	clearParts := c.Cfg.Parts()
 	if c.Chunked {
 		segMS := int64(e.Asset.LoopMS) / int64(len(e.Asset.Ref.Segs))
-		clearParts = append(clearParts, "ato_"+refmodel.FormatMS(segMS*3/4), "chunkdur_"+refmodel.FormatMS(segMS/4))
+		switch c.ChunkKind {
+		case "no-ato":
+			clearParts = append(clearParts, "chunkdur_0.5")
+		case "tiny-ato":
+			clearParts = append(clearParts, "ato_0.01", "chunkdur_0.5")
+		default:
+			clearParts = append(clearParts, "ato_"+refmodel.FormatMS(segMS*3/4), "chunkdur_"+refmodel.FormatMS(segMS/4))
+		}
 	}
 	parts := append(append([]string{}, clearParts...), c.DRM)
 	// an instant after the segment's end: chunked delivery then never waits
